@@ -68,9 +68,18 @@ def build_set(cues):
         for i, ln in enumerate(lines):
             if i:
                 nodes.append(CaptionNode.create_break())
-            nodes.append(CaptionNode.create_text(ln))
+            if _SPLIT and " " in ln.strip():
+                # the same line as several text nodes, the blank between the first two words being a node of its own
+                # (what the DFXP reader returns for "<span>one</span> <span>two</span> three")
+                head, rest = ln.split(" ", 1)
+                nodes += [CaptionNode.create_text(head), CaptionNode.create_text(" "), CaptionNode.create_text(rest)]
+            else:
+                nodes.append(CaptionNode.create_text(ln))
         cl.append(Caption(s, e, nodes))
     return CaptionSet({"en-US": cl})
+
+
+_SPLIT = False
 
 
 def parse_output(doc):
@@ -269,10 +278,20 @@ def all_types():
 
 
 def run_case(acc, texts, spacing="sparse", first="late"):
+    global _SPLIT
     v, out = evaluate(texts, spacing, first)
     acc.case((texts, spacing, first), True, out, {"cues": texts, "spacing": spacing, "first_cue": first})
     for kind, det in v:
         acc.violation(f"C17/{kind}/{feature(texts)}", {"texts": texts, "spacing": spacing, "first": first}, det)
+    if spacing == "sparse" and any(" " in l.strip() for c in texts for l in c):
+        _SPLIT = True
+        try:
+            v, out = evaluate(texts, spacing, first)
+        finally:
+            _SPLIT = False
+        acc.case((texts, spacing, first, "split"), True, out, {"cues": texts, "spacing": spacing, "first_cue": first, "lines_as_several_text_nodes": True})
+        for kind, det in v:
+            acc.violation(f"C17/{kind}/{feature(texts)}/line-of-several-text-nodes", {"texts": texts, "spacing": spacing, "first": first, "split": True}, det)
 
 
 def run_shard(d):
@@ -340,5 +359,12 @@ def replay(case):
     # a reused writer: give the shared object one earlier document to write
     _SHARED_WRITER = SCCWriter()
     _SHARED_WRITER.write(build_set([(20000000, 22000000, ["earlier document"])]))
-    v, _ = evaluate(case["texts"], case["spacing"], case["first"], case.get("base", 0))
+    global _SPLIT
+    _SPLIT = bool(case.get("split"))
+    try:
+        v, _ = evaluate(case["texts"], case["spacing"], case["first"], case.get("base", 0))
+    finally:
+        _SPLIT = False
+    if case.get("split"):
+        return [{"sig": f"C17/{k}/{feature(case['texts'])}/line-of-several-text-nodes", "detail": d} for k, d in v]
     return [{"sig": f"C17/{k}/{feature(case['texts'])}" + ("/beyond-one-hour" if case.get("base") else ""), "detail": det} for k, det in v]
